@@ -914,6 +914,7 @@ class SymReal:
     def __mod__(self, o):
         if isinstance(o, (int, float)) and not isinstance(o, bool) and o > 0:
             c = rval(o)
+            _note_floor(self.t / c)
             return SymReal(self.t - c * z3.ToReal(z3.ToInt(self.t / c)))
         raise Unsupported("SymReal %% %r" % (o,))
 
